@@ -802,7 +802,7 @@ def run_check(pid, tier, base_seed, out=sys.stdout):
                     if pj is not None:
                         small, stage = {"prefix": pj["prefix"], "plan": pj["plan"], "steps": None}, "prefixed"
                         v = dict(v, detail=v["detail"] + " [reproduces only after runs %s were executed first in the same process]" % pj["prefix_indices"])
-            path = os.path.join(os.environ.get("VERIF_REPLAY_DIR", os.path.join(VERIF_DIR, "replays")), "%s-%d-%d.json" % (pid, base_seed, idx))
+            path = os.path.join(os.environ.get("VERIF_REPLAY_DIR", os.path.join(VERIF_DIR, "replays")), "%s-%d-%d%s.json" % (pid, base_seed, idx, "" if v.get("stage", "simulation") == "simulation" else "-" + v["stage"]))
             write_json(path, {"property": pid, "seed": base_seed, "run_index": idx, "run_seed": run_seed(base_seed, pid, idx),
                               "tier": tier, "tree": tree_id(), "shrink_executions": used,
                               "original_steps": len(plan.get("steps") or []) if plan else None,
